@@ -28,8 +28,8 @@ theorem mem_cols (f : CsvFmt) (hv : ValidIds f) (E N : Str) (U T : Option Str)
 
 /-! ### feature columns -/
 
-theorem afs_foldl (sep : Char) (afs : List Int) (acc : Str) :
-    afs.foldl (fun acc v => acc ++ [sep] ++ intStr v) acc = acc ++ (afs.map (fun v => sep :: intStr v)).flatten := by
+theorem afs_foldl (sep : Char) (afs : List AFVal) (acc : Str) :
+    afs.foldl (fun acc v => acc ++ [sep] ++ afText v) acc = acc ++ (afs.map (fun v => sep :: afText v)).flatten := by
   induction afs generalizing acc with
   | nil => simp
   | cons a r ih => simp [ih]
